@@ -132,6 +132,54 @@ namespace c12
     }
     for(auto& kv : seq) { auto rv = seq.find({kv.first.second, kv.first.first}); VF_CHECK(rv != seq.end(), "neighbour relation of children not symmetric");
       VF_CHECK(kv.second == rv->second, "halos " << kv.first.first << "<->" << kv.first.second << " list the shared base entities in different orders"); }
+
+    // ---- the explicit element-list overload extract_patch(elements, split_meshparts, split_halos, split_patches), called
+    // several times on ONE parent node with generated flags (draws appended behind all earlier ones): the extracted mesh
+    // consists of exactly the listed cells; halos / patch mesh-parts / named mesh-parts are carried over iff the documented
+    // flag says so; a carried-over halo holds exactly the parent halo vertices that belong to the listed cells.
+    {
+      const int p = t.range(0, np - 1); NodeOf<Shape_>& pn = *pnode[(size_t)p]; const MeshOf<Shape_>& pm = *pn.get_mesh(); const Index pc = pm.get_num_elements();
+      const auto& pv = pm.get_vertex_set(); const auto& pis = pm.template get_index_set<sd, 0>();
+      const int ncalls = 1 + t.range(0, 2); vf::J jx = vf::J::arr();
+      for(int call = 0; call < ncalls; ++call)
+      {
+        std::vector<Index> cells; { Chooser chs(t, (size_t)pc, 24); for(Index i = 0; i < pc; ++i) if(chs.pick(2u) == 1u) cells.push_back(i); } if(cells.empty()) cells.push_back(Index(t.range(0, int(pc) - 1)));
+        const bool sm = t.flag(1, 2), sh = t.flag(1, 2), sp = t.flag(1, 2);
+        { vf::J e = vf::J::obj(); e.set("parent", p); e.set("cells", vf::J(std::vector<long>(cells.begin(), cells.end()))); e.set("split_meshparts", sm); e.set("split_halos", sh); e.set("split_patches", sp); jx.add(e); c.desc.set("explicit_extractions", jx); }
+        c.op = "explicit-list"; c.label(std::string("explicit:halos=") + (sh ? "1" : "0") + ",patches=" + (sp ? "1" : "0")); if(call > 0) c.label("explicit:repeated-on-one-node"); c.announce();
+        std::vector<Index> arg(cells); auto sub = pn.extract_patch(std::move(arg), sm, sh, sp);
+        VF_CHECK(sub && sub->get_mesh(), "explicit-list extract_patch returned no mesh");
+        const MeshOf<Shape_>& smesh = *sub->get_mesh();
+        VF_CHECK(smesh.get_num_elements() == Index(cells.size()), "explicit-list extract_patch (call " << call << " on this node): the patch has " << smesh.get_num_elements() << " cells, " << cells.size() << " were listed");
+        { // same cells geometrically: multiset of sorted vertex-coordinate tuples
+          auto key = [&](const MeshOf<Shape_>& m, Index cc) { std::vector<std::vector<double>> q; const auto& is = m.template get_index_set<sd, 0>(); const auto& vs = m.get_vertex_set();
+            for(int j = 0; j < is.num_indices; ++j) { std::vector<double> xx; for(int a = 0; a < MeshOf<Shape_>::world_dim; ++a) xx.push_back(double(vs[is(cc, j)][a])); q.push_back(xx); } std::sort(q.begin(), q.end()); return q; };
+          std::multiset<std::vector<std::vector<double>>> want, have; for(Index cc : cells) want.insert(key(pm, cc)); for(Index cc = 0; cc < smesh.get_num_elements(); ++cc) have.insert(key(smesh, cc));
+          VF_CHECK(want == have, "explicit-list extract_patch (call " << call << " on this node): the extracted cells are not the listed ones"); }
+        std::set<Index> pverts; for(Index cc : cells) for(int j = 0; j < pis.num_indices; ++j) pverts.insert(pis(cc, j)); (void)pv;
+        // halos
+        if(!sh) VF_CHECK(sub->get_halo_map().empty(), "split_halos=false but the extracted patch carries " << sub->get_halo_map().size() << " halos");
+        else for(int q : pcomm[(size_t)p])
+        {
+          const PartOf<Shape_>* ph = pn.get_halo(q); if(ph == nullptr) continue; Index expect = 0; const auto& tv = ph->template get_target_set<0>(); for(Index i = 0; i < tv.get_num_entities(); ++i) if(pverts.count(tv[i])) ++expect;
+          const PartOf<Shape_>* hh = sub->get_halo(q);
+          if(expect == 0) { VF_CHECK(hh == nullptr || hh->get_num_entities(0) == 0, "extracted patch has a halo towards " << q << " although it shares no vertex with that halo"); continue; }
+          VF_CHECK(hh != nullptr, "split_halos=true: the listed cells touch " << expect << " vertices of the parent halo towards " << q << " but the extracted patch has no such halo");
+          VF_CHECK(hh->get_num_entities(0) == expect, "halo towards " << q << " of the extracted patch has " << hh->get_num_entities(0) << " vertices, the listed cells touch " << expect << " of the parent halo");
+        }
+        // patch mesh-parts (children k >= 0 of the parent were created by the graph overload above)
+        Index npatch = 0; for(const auto& kv : sub->get_patch_map()) if(kv.first >= 0 && kv.second) ++npatch;
+        if(!sp) VF_CHECK(npatch == 0, "split_patches=false but the extracted patch carries " << npatch << " child patch mesh-parts");
+        else
+        {
+          Index covered = 0; for(int k = 0; k < nch[(size_t)p]; ++k) { const PartOf<Shape_>* cp = sub->get_patch(k); if(cp) covered += cp->get_num_entities(sd); }
+          VF_CHECK(covered == Index(cells.size()), "split_patches=true: the child patch mesh-parts carried over cover " << covered << " of the " << cells.size() << " extracted cells");
+        }
+        // named mesh-parts
+        if(!sm) VF_CHECK(sub->get_mesh_part_names().empty(), "split_meshparts=false but the extracted patch carries mesh parts");
+        else VF_CHECK(sub->get_mesh_part_names().size() == pn.get_mesh_part_names().size(), "split_meshparts=true: " << sub->get_mesh_part_names().size() << " mesh part names carried over, the parent has " << pn.get_mesh_part_names().size());
+      }
+    }
   }
 
   template<typename Shape_> inline void register_split(std::vector<vf::Target>& tg)
